@@ -200,9 +200,82 @@ structure Cfg where
 structure Inv (c : Cfg) : Prop where
   /-- a mutex is only ever held by a thread that still has something to do (calls release what they take) -/
   holders : ∀ m t, (c.s m).holder = some t → t ∈ c.ts ∧ c.prog t ≠ []
-  /-- a thread about to lock `m` holds only lower-addressed mutexes, or private ones, and not `m` itself -/
-  ordered : ∀ t f m r, c.prog t = .acq .blocking f m :: r → ∀ m', (c.s m').holder = some t → m' ≠ m ∧ (m' < m ∨ c.priv t m')
+  /-- a thread about to lock `m` does not hold `m`, and `m` is private to it or it holds only
+      lower-addressed and private mutexes -/
+  ordered : ∀ t f m r, c.prog t = .acq .blocking f m :: r → ∀ m', (c.s m').holder = some t →
+    m' ≠ m ∧ (c.priv t m ∨ m' < m ∨ c.priv t m')
   /-- nobody else waits for a private mutex -/
   private_ : ∀ t m, c.priv t m → ∀ t' f r, t' ≠ t → c.prog t' ≠ .acq .blocking f m :: r
+  /-- …or holds one -/
+  priv_holder : ∀ t m, c.priv t m → ∀ t', (c.s m).holder = some t' → t' = t
+
+/-! ### the system of threads, the per-thread lock discipline, and the static discipline of a call -/
+
+def Act.mutex : Act → Nat
+  | .acq _ _ m => m
+  | .rel m => m
+
+/-- the thread-local lock discipline of a program, given what the thread holds:
+    only blocking locks; never a mutex already held; a shared mutex only while
+    holding lower-addressed or private ones; releases only what is held;
+    everything released at the end -/
+def disc (privs : Nat → Prop) [DecidablePred privs] : List Act → List Nat → Bool
+  | [], held => held.isEmpty
+  | .acq .blocking _ m :: r, held =>
+    !held.contains m && (decide (privs m) || held.all (fun h => decide (h < m) || decide (privs h))) && disc privs r (m :: held)
+  | .acq .try_ _ _ :: _, _ => false
+  | .rel m :: r, held => held.contains m && disc privs r (held.erase m)
+
+def upd {α} (f : Nat → α) (i : Nat) (v : α) : Nat → α := fun j => if j = i then v else f j
+
+def heldAfter : Act → List Nat → List Nat
+  | .acq _ _ m, h => m :: h
+  | .rel m, h => h.erase m
+
+/-- the whole system: mutexes, each thread's remaining actions, each thread's own record of what it holds -/
+structure Sys where
+  s : St
+  prog : Nat → List Act
+  held : Nat → List Nat
+
+/-- thread `t` performs its next action (which can proceed) -/
+def Step (c c' : Sys) : Prop :=
+  ∃ t a r, c.prog t = a :: r ∧ enabled c.s a ∧
+    c' = ⟨(MutexPanic.step c.s t a).2, upd c.prog t r, upd c.held t (heldAfter a (c.held t))⟩
+
+inductive Reach (c0 : Sys) : Sys → Prop
+  | refl : Reach c0 c0
+  | step {c c'} : Reach c0 c → Step c c' → Reach c0 c'
+
+structure WF (ts : List Nat) (priv : Nat → Nat → Prop) [∀ t, DecidablePred (priv t)] (c : Sys) : Prop where
+  unpoisoned : c.s.unpoisoned
+  holder_iff : ∀ m t, (c.s m).holder = some t ↔ m ∈ c.held t
+  outside : ∀ t, t ∉ ts → c.prog t = []
+  disc_ : ∀ t, disc (priv t) (c.prog t) (c.held t) = true
+  nodup : ∀ t, (c.held t).Nodup
+  private_ : ∀ t m, priv t m → ∀ t', t' ≠ t → ∀ a ∈ c.prog t', Act.mutex a ≠ m
+  priv_holder : ∀ t m, priv t m → ∀ t', (c.s m).holder = some t' → t' = t
+
+/-- the static discipline of one call, as written: only blocking locks, never a
+    list that may already be held, a second shared list only in address order
+    (or one of the two is the call's own new list), releases only of what is
+    held, nothing held at an early return or at the end -/
+def callOk : List Ev → List Tgt → Bool → Bool
+  | [], held, _ => held.isEmpty
+  | .acq k _ t :: r, held, d =>
+    k == .blocking && !(held.any (mayAlias d t)) &&
+    (t == .fresh || held.all (fun h => h == .fresh || (h == .lo && t == .hi))) && callOk r (t :: held) d
+  | .rel t :: r, held, d => held.contains t && callOk r (held.erase t) d
+  | .distinctOrReturn :: r, held, _ => held.isEmpty && callOk r held true
+
+/-- admissible assignments with the address order and the privacy of the call's own new list -/
+structure RhoOrd (ρ : Tgt → Nat) (privs : Nat → Prop) : Prop extends RhoOk ρ where
+  lo_le_hi : ρ .lo ≤ ρ .hi
+  fresh_priv : privs (ρ .fresh)
+
+/-- a thread's program: the calls it makes, one after the other -/
+def progOf : List (List Ev × (Tgt → Nat)) → List Act
+  | [] => []
+  | (evs, ρ) :: r => callActs ρ evs ++ progOf r
 
 end RotoV.MutexPanic
